@@ -137,7 +137,11 @@ class HistSystem:
             v = state.get("v")
             expect_ok = None
             new_cache = cached
-            if beh in ("newer", "same"):
+            if "kind" not in state:
+                # the request never reached the server (the client failed before sending): nothing changes in the model; the
+                # missing exchange is reported below
+                expect_ok = False
+            elif beh in ("newer", "same"):
                 expect_ok = True
                 new_cache = (v, state.get("body"))
             elif beh == "older":
@@ -194,11 +198,23 @@ def hist_chunk(chunk):
         s.net.uninstall()
 
 
+def hist_chunk_debug(chunk):
+    """the same histories with the library's loggers at DEBUG (what `ofxget -vv` configures)"""
+    from vf.checks import c06
+
+    with c06.verbose_logging({"loglevel": "DEBUG"}):
+        out = hist_chunk(chunk)
+    return [(h, key, [(sig + "|logging-at-DEBUG", case, detail) for sig, case, detail in fails]) for h, key, fails in out]
+
+
 def part_histories(args, workers=1):
     depth, = args
     t = Tally()
     events = [(b, i) for b in BEHAVIOURS for i in ("same", "other", "fresh")]
     r = xstate.bfs_pool(workers, hist_chunk, events, depth, t)
+    r2 = xstate.bfs_pool(workers, hist_chunk_debug, events, max(3, depth - 2), t)
+    t.count("transitions", r2["transitions"])
+    t.count("transitions-logging-at-DEBUG", r2["transitions"])
     t.count("states", r["states"])
     t.count("transitions", r["transitions"])
     for smp in r["samples"][:2]:
@@ -585,7 +601,7 @@ def run(ctx):
         "schedule_exploration_capped": bool(tally.counts.get("capped")),
         "rule": f"(1) BFS to depth {5 if ctx.quick else 7} over 21 events (7 server behaviours x (the current client / a second live client of the same institution / a fresh instance replacing the current one)), model = dict cache, key = (cache present, calls made on the "
         "current instance, calls made on the second client) so that hidden per-instance state cannot hide behind de-duplication; every transition replays the history on the real request_profile and compares the request's "
-        "DTPROFUP, success/failure, returned bytes and cache file with the model; (2) 3 cache-writing scenarios (first write, overwrite with longer, with shorter) x every crash state "
+        "DTPROFUP, success/failure, returned bytes and cache file with the model; the same search two levels shallower with the library's loggers at DEBUG; (2) 3 cache-writing scenarios (first write, overwrite with longer, with shorter) x every crash state "
         f"(every prefix of the file-operation log x torn prefixes of pending writes, {'coarse' if ctx.quick else 'every byte'}) -> recovery by a fresh client; (3) 2 concurrent "
         f"request_profile calls on one client (no cache / an older cache / an older cache with one caller told 'up to date' and the other sent a newer profile), {'preemption bound 2' if ctx.quick else 'all interleavings'} "
         "of their file and HTTP points, and one preemption at the first visit of every line of ofxtools/Client.py; every execution runs in its own forked process"
